@@ -239,6 +239,38 @@ def c18c(tree, ob):
                         ob.violate(SESS, qual, src(call), 'pop does not remove the requested transfer id', call)
                 else:
                     ob.violate(SESS, qual, src(call), 'a received bundle leaves the queue outside the pop methods', call)
+        for d in walk_local(item):
+            if isinstance(d, ast.Delete) and any(pm('self._rx_map[$k]', t) is not None for t in d.targets):
+                if item.name in ('recv_bundle_pop_data', 'recv_bundle_pop_file') and all(src(t.slice) == 'bid' for t in d.targets):
+                    ob.site(SESS, d, item.name + ' removes exactly the requested id')
+                else:
+                    ob.violate(SESS, qual, src(d), 'a received bundle leaves the queue outside the pop methods', d)
+    # popping to a file: the transfer leaves the queue only once it has been written out
+    for (rel, clsname, mapattr) in ((SESS, 'ContactHandler', '_rx_map'), (UAGENT, 'Agent', '_rx_queue')):
+        if not tree.has_func(rel, clsname + '.recv_bundle_pop_file'):
+            continue
+        fp = FuncView(tree, rel, clsname + '.recv_bundle_pop_file')
+        writes = [c for c in calls_in(fp.func) if (call_name(c) or '').endswith('copyfileobj') or (isinstance(c.func, ast.Attribute) and c.func.attr == 'write')]
+        rem = [c for c in calls_in(fp.func) if isinstance(c.func, ast.Attribute) and self_attr(c.func.value) == mapattr and c.func.attr == 'pop'] + \
+              [d for d in walk_local(fp.func) if isinstance(d, ast.Delete) and any(self_attr(getattr(t, 'value', None)) == mapattr for t in d.targets)]
+        if not writes or not rem:
+            raise AnalysisError('C18.c: unrecognised recv_bundle_pop_file in ' + rel)
+        early = [r for r in rem if not all(fp.dominates(w, r)[0] for w in writes)]
+        if early:
+            ob.violate(rel, fp.qual, src(early[0])[:60] + ' before the output file is written', 'the transfer is removed from the receive queue before the output file could be opened and written: '
+                       'when that fails, a transfer announced as finished is gone and its data can never be obtained', early[0])
+        else:
+            ob.site(rel, rem[0], clsname + '.recv_bundle_pop_file removes the transfer only after writing it out')
+    # the end of the connection ends every started transfer: exactly one finished signal each
+    fc = FuncView(tree, SESS, 'ContactHandler.close')
+    rfin = [f for f in method_calls(fc.func, 'recv_bundle_finished', 'self') if fc.has(f, 'self._rx_tmp is None', False) or '_rx_tmp' in src(enclosing(f, (ast.If,)) .test if enclosing(f, (ast.If,)) else f)]
+    sfin = [f for f in method_calls(fc.func, 'send_bundle_finished', 'self') if enclosing(f, (ast.For,)) is not None and '_tx_map' in src(enclosing(f, (ast.For,)).iter)]
+    if rfin and sfin:
+        ob.site(SESS, rfin[0], 'close(): the transfer being received gets its finished signal')
+        ob.site(SESS, sfin[0], 'close(): every transfer sent or awaiting its ACK gets its finished signal')
+    else:
+        ob.violate(SESS, fc.qual, 'close() without finished signals for transfers in progress', 'a transfer that was being received, sent or awaiting its acknowledgement when the connection closes was '
+                   'announced as started and never gets a finished signal; the send queue goes on listing it', fc.func)
     # TX: every finished signal for a transfer is accompanied by its removal from the TX map
     for item in cls.body:
         if not isinstance(item, ast.FunctionDef):
@@ -258,7 +290,11 @@ def c18c(tree, ob):
             after = fv.cfg.must_pass(fn, goal, removers, include_exc=False)[0] if removers else False
             # removal earlier on every path to the emit (from function entry, or from the loop head within one iteration)
             before = any(fv.cfg.must_pass(fv.cfg.entry if goal is fv.cfg.exit else goal, fn, {r}, include_exc=False)[0] for r in removers)
-            if after or before:
+            # a loop over the whole map followed on every path by self._tx_map.clear()
+            clears = {fv.node(c) for c in calls_in(item) if pm('self._tx_map.clear()', c) is not None}
+            whole = loop is not None and isinstance(loop, ast.For) and '_tx_map' in src(loop.iter) and clears and \
+                fv.cfg.must_pass(fv.node(loop.iter), fv.cfg.exit, clears, include_exc=False)[0]
+            if after or before or whole:
                 ob.site(SESS, f, '{}: finished signal is paired with removal from the TX map'.format(item.name))
             else:
                 ob.violate(SESS, qual, src(f)[:70].replace('\n', ' '), 'a transfer is announced as finished but stays in the TX map: send_bundle_get_queue keeps listing a finished id', f)
